@@ -135,7 +135,11 @@ def default_models():
     reg('numpy.int32', lambda I, x=0: I.builtins['int'].fn(x))
     def const_like(v):
         def f(I, x):
-            return SArr(x.length, lambda k: v) if isinstance(x, SArr) else v
+            if isinstance(x, SArr):
+                a = SArr(x.length, lambda k: v)
+                a.const_value = v
+                return a
+            return v
         return f
     reg('numpy.isnan', const_like(False))      # reals are never NaN (undefined operations fork instead)
     reg('numpy.isfinite', const_like(True))
